@@ -299,3 +299,11 @@ Definition from_json_el (c : ecls) (j : jv) : result member :=
 
 Definition cjv (j : jv) : cv :=
   match j with JName n => CB n | JNum z => CZ z | JNull => CN end.
+
+(* list forms used by repeated fields: a comprehension, left to right, first failure wins *)
+Definition to_json_list (c : ecls) (vs : list Z) : list jv := map (to_json_el c) vs.
+Fixpoint from_json_list (c : ecls) (js : list jv) : result (list member) :=
+  match js with
+  | [] => Ok []
+  | j :: r => do m <- from_json_el c j; do ms <- from_json_list c r; Ok (m :: ms)
+  end.
